@@ -2,5 +2,5 @@ INIT TInit
 NEXT TNext
 CONSTANT Layer = "P"
 CONSTRAINT Mark
-POSTCONDITION AllAccepted
+POSTCONDITION Post
 CHECK_DEADLOCK FALSE
